@@ -218,3 +218,125 @@ func vhAssertCfgSame(a, b vhCfgSnap, id string) {
 	verifAssert(a.maf == b.maf, id+"/maf")
 	verifAssert(a.mfn == b.mfn, id+"/mfn")
 }
+
+// ---- user-declared aliases of Stack and Condition (README "Type Aliasing")
+
+type vhAliasStack Stack   // alias without its own String method
+type vhAliasStackS Stack  // alias with its own String method
+type vhAliasCond Condition
+type vhAliasCondS Condition
+
+func (r vhAliasStackS) String() string { return Stack(r).String() }
+func (r vhAliasCondS) String() string  { return Condition(r).String() }
+
+// vhStackOf returns the native Stack behind a value the harness created, and
+// whether the value is a Stack / Stack alias / non-nil pointer to one.
+func vhStackOf(x any) (Stack, bool) {
+	switch v := x.(type) {
+	case Stack:
+		return v, v.stack != nil
+	case vhAliasStack:
+		return Stack(v), v.stack != nil
+	case vhAliasStackS:
+		return Stack(v), v.stack != nil
+	case *Stack:
+		if v != nil {
+			return *v, v.stack != nil
+		}
+	case *vhAliasStack:
+		if v != nil {
+			return Stack(*v), v.stack != nil
+		}
+	case *vhAliasStackS:
+		if v != nil {
+			return Stack(*v), v.stack != nil
+		}
+	}
+	return Stack{}, false
+}
+
+// vhCondOf is the Condition counterpart of vhStackOf.
+func vhCondOf(x any) (Condition, bool) {
+	switch v := x.(type) {
+	case Condition:
+		return v, v.condition != nil
+	case vhAliasCond:
+		return Condition(v), v.condition != nil
+	case vhAliasCondS:
+		return Condition(v), v.condition != nil
+	case *Condition:
+		if v != nil {
+			return *v, v.condition != nil
+		}
+	case *vhAliasCond:
+		if v != nil {
+			return Condition(*v), v.condition != nil
+		}
+	case *vhAliasCondS:
+		if v != nil {
+			return Condition(*v), v.condition != nil
+		}
+	}
+	return Condition{}, false
+}
+
+// vhWrapStack presents s as native (0), alias value (1), alias with String
+// (2), pointer to alias (3) or pointer to native Stack (4).
+func vhWrapStack(s Stack, form int) any {
+	switch form {
+	case 1:
+		return vhAliasStack(s)
+	case 2:
+		return vhAliasStackS(s)
+	case 3:
+		a := vhAliasStack(s)
+		return &a
+	case 4:
+		return &s
+	}
+	return s
+}
+
+// vhWrapCond presents c as native (0), alias (1), alias with String (2) or
+// pointer to alias (3).
+func vhWrapCond(c Condition, form int) any {
+	switch form {
+	case 1:
+		return vhAliasCond(c)
+	case 2:
+		return vhAliasCondS(c)
+	case 3:
+		a := vhAliasCond(c)
+		return &a
+	}
+	return c
+}
+
+// vhSameElem compares two element values the harness created: primitives by
+// value, Stacks/Conditions (in any wrapping) by identity of the instance.
+func vhSameElem(a, b any) bool {
+	if a == nil || b == nil {
+		return a == nil && b == nil
+	}
+	if sa, ok := vhStackOf(a); ok {
+		sb, ok2 := vhStackOf(b)
+		return ok2 && sa.stack == sb.stack
+	}
+	if ca, ok := vhCondOf(a); ok {
+		cb, ok2 := vhCondOf(b)
+		return ok2 && ca.condition == cb.condition
+	}
+	return vhSame(a, b)
+}
+
+// vhAssertElems asserts that the raw content of s is exactly model.
+func vhAssertElems(s Stack, model []any, id string) {
+	verifAssert(s.Len() == len(model), id+"/Len")
+	if s.Len() != len(model) {
+		return
+	}
+	st := *s.stack
+	for k := range model {
+		verifAssert(vhSameElem(st[k+1], model[k]), id+"/slot")
+	}
+}
